@@ -265,6 +265,24 @@ def keysets(shape, n):
     return conv(n.get("added", [])), conv(n.get("removed", []))
 
 
+def item_views_disagree(n):
+    """The (key, child) views of a dictionary delta must name exactly the keys of the key views (same delta, two accessors)."""
+    if n is None or "addi" not in n:
+        return None
+    for a, b, what in (("added", "addi", "added_keys()/added_items()"), ("removed", "remi", "removed_keys()/removed_items()"),
+                       ("modk", "modi", "modified_keys()/modified_items()")):
+        if sorted(map(str, n.get(a, []))) != sorted(map(str, n.get(b, []))):
+            return "%s disagree: keys %s, items %s" % (what, n.get(a), n.get(b))
+    return None
+
+
+def only_removed_items_empty(n):
+    """Signature of known finding F11: removed_items() is empty although removed_keys() names keys; the other views agree."""
+    return (n is not None and "remi" in n and n["remi"] == [] and n.get("removed") and
+            sorted(map(str, n.get("added", []))) == sorted(map(str, n.get("addi", []))) and
+            sorted(map(str, n.get("modk", []))) == sorted(map(str, n.get("modi", []))))
+
+
 def check_coherence(sc, log):
     stats = dict(ticks_checked=0, probe_cancelled_in_cycle=0, probe_slot_growth=0, probe_remove_readd=0, probe_lazy_reads=0, probe_window_below_min=0)
     W, C = log["W"], log["C"]
@@ -327,6 +345,9 @@ def check_coherence(sc, log):
                     return ("value_is_prev_plus_delta", "t=%d consumer %d on %s: previous value + delta %s gives %s but the value reads %s" % (
                         t, c["id"], w["shape"], json.dumps(d), model_norm(shape, replica), cur)), stats
             if shape[0] in ("TSS", "TSD"):
+                dis = item_views_disagree(ci)
+                if dis:
+                    return ("delta_views_disagree", "t=%d consumer %d on %s: %s" % (t, c["id"], w["shape"], dis)), stats
                 added, removed = keysets(shape, ci)
                 cur_keys = set(cur) if shape[0] == "TSS" else set(cur.keys())
                 if added & removed:
